@@ -180,3 +180,25 @@ package refopts
 //@   ensures result ==> ms_reached && ms
 
 //@ property C06: refGroupPasses refGroupMatches (refGroupFilter).Filter
+
+// ---------------------------------------------------------------- ref_group.go / ref_group_builder.go: gitconfig (C15)
+//@ iface Configger.GetConfig
+//@   pure
+//@   ensures result1 == nil ==> result0 != nil
+
+// augmentFromConfig asks for exactly the entries of this group
+// ("refgroup.<symbol>", so entries of other sections or groups cannot leak in)
+// and applies them in git's order (loop step clauses): each include /
+// exclude[Regexp] entry is combined onto the filter built so far with its exact
+// value, `name` sets the display name, any other key changes nothing.
+//@ func (*refGroup).augmentFromConfig
+//@   modifies rg.filter, rg.Name
+//@   call 0 GetConfig assert keyof(arg_0) == catkeys("refgroup.", rg.Symbol)
+//@   loop 0 step entry.Key == "name" ==> same(rg.Name, entry.Value) && rg.filter == prev(rg.filter)
+//@   loop 0 step entry.Key == "include" ==> same(rg.Name, prev(rg.Name)) && (forall r string :: apply(rg.filter, r) == ((prev(rg.filter) != nil && apply(prev(rg.filter), r)) || (len(entry.Value) == 0 || prefixMatch(entry.Value, r))))
+//@   loop 0 step entry.Key == "exclude" ==> same(rg.Name, prev(rg.Name)) && (forall r string :: apply(rg.filter, r) == ((prev(rg.filter) == nil || apply(prev(rg.filter), r)) && !(len(entry.Value) == 0 || prefixMatch(entry.Value, r))))
+//@   loop 0 step entry.Key == "includeregexp" ==> same(rg.Name, prev(rg.Name)) && (forall r string :: apply(rg.filter, r) == ((prev(rg.filter) != nil && apply(prev(rg.filter), r)) || fullMatchK(keyof(entry.Value), keyof(r))))
+//@   loop 0 step entry.Key == "excluderegexp" ==> same(rg.Name, prev(rg.Name)) && (forall r string :: apply(rg.filter, r) == ((prev(rg.filter) == nil || apply(prev(rg.filter), r)) && !fullMatchK(keyof(entry.Value), keyof(r))))
+//@   loop 0 step entry.Key != "name" && entry.Key != "include" && entry.Key != "exclude" && entry.Key != "includeregexp" && entry.Key != "excluderegexp" ==> same(rg.Name, prev(rg.Name)) && rg.filter == prev(rg.filter)
+
+//@ property C15: (*refGroup).augmentFromConfig
